@@ -18,6 +18,13 @@ CHECKS.update({
  "C12": ("model_checking", "E1", "explicit-state model checking (stateright) with a virtual clock: timed single ops, timed+untimed mixes, timed streams and search(); Tick interleaved with server answers and polls in every order; oracle: no timeout before the deadline, no pending un-woken call at/after it, a routed response wins, late replies are seen by nobody, later operations complete, nothing stays reserved", "3 C12", E1_NOTE),
  "C16": ("model_checking", "E1", "explicit-state model checking (stateright) of the PagedResults adapter against a paging server model: result-set sizes 0..5 x page sizes 1..3 x cookie styles x accompanying controls/options/timeout x [Paged] / [EntriesOnly, Paged], plus free call plans; oracle on every request the server receives (one paging control, size, cookie echo, unchanged base/scope/filter/attrs/options/other controls, nothing after the empty cookie) and on every value the client gets", "3 C16", E1_NOTE),
 })
+CHECKS.update({
+ "C07": ("exploration", "E3", "bounded-exhaustive enumeration: every tag tree of depth<=2/width<=2 over 4 classes x 8 tag numbers x 5 payloads (plus depth 3 over a reduced alphabet) encoded by lber, compared byte-for-byte with the independent minimal encoder and parsed back with trailers; every payload size across the 1/2/3/4-octet length boundaries; INTEGER/ENUMERATED for every i64 in a dense range and around every power of two; every combination of non-minimal length forms per node parsed and compared with the independent decoder", "6 C07", BE_NOTE),
+ "C08": ("exploration", "E3", "bounded-exhaustive enumeration: (a) every item AST over attribute/rule/value alphabets rendered with every per-byte escaping choice, with and without parentheses, plus composites; (b) every byte string over a 16-symbol filter alphabet up to length 6 (7 thorough) and a 24-symbol one up to 5 (6 thorough); three-part oracle: grammar strings compile to the reference AST, accepted strings print back to the input, must-reject classes are rejected, nothing panics", "6 C08", BE_NOTE),
+ "C09": ("exploration", "E3", "bounded-exhaustive enumeration: every string of length <=2 over all ASCII and every string up to length 4 (5 thorough) over the 22 filter/DN metacharacters and multi-byte characters; ldap_escape embedded in four filter shapes compiles to the unchanged structure with the value byte-for-byte, unescape round-trips, dn_escape embedded at four DN positions is read back by an independent RFC 4514 parser, clean input is returned borrowed", "6 C09", BE_NOTE),
+ "C15": ("exploration", "E3", "bounded-exhaustive enumeration: every entry with 0-2 (subset: 3) attributes whose value lists are all sequences of length 0..3 over valid/invalid UTF-8 values, built by the independent encoder (4 length forms), parsed by lber, through SearchEntry::construct; oracle: DN, exactly-one-map, text iff all UTF-8 (in order), binary multiset otherwise", "6 C15", BE_NOTE),
+ "C20": ("exploration", "E3", "bounded-exhaustive enumeration: full product of base DNs x attribute lists x scope words x filters x extension lists x trailing-? choice, formatted by the independent RFC 4516 formatter; oracle: components and defaults, the three error classes, unknown non-critical extensions ignored", "6 C20", BE_NOTE),
+})
 NA = {}
 import os
 props=[json.loads(l) for l in open('/verif/properties.jsonl')]
